@@ -1155,6 +1155,9 @@ func TestC14(t *testing.T) {
 			n := rapid.IntRange(lo, hi).Draw(rt, "n")
 			paths := []string{"proposal", "block", "smr", "collect", "tdpos", "xpoa", "tdpos-term", "xpoa-change"}
 			path := rapid.SampledFrom(paths).Draw(rt, "path")
+			if (path == "tdpos-term" || path == "xpoa-change") && n < 2 {
+				n = 2 // a one-member set cannot be changed into a different one of the same size
+			}
 			collector := 0
 			if path == "block" {
 				collector = -1
